@@ -594,12 +594,16 @@ pub fn probe_c10(run: &Run, rng: &mut Rng, acc: &mut Acc) -> Vec<String> {
     {
         let mut w = b.clone();
         let fresh: Vec<String> = {
-            let mut v: Vec<String> = (0..3).map(|i| addr20(&sc.cfg.prefix, &format!("halt-monitor-{}-{}", i, rng.below(1000)))).collect();
+            // three, two, one or no monitors at all
+            let mut v: Vec<String> = (0..(3 - rng.below(4).min(3) % 4)).map(|i| addr20(&sc.cfg.prefix, &format!("halt-monitor-{}-{}", i, rng.below(1000)))).collect();
             // arbitrary (unsorted) order
             if rng.chance(1, 2) {
                 v.reverse();
             }
-            v.rotate_left(rng.below(3) as usize);
+            if !v.is_empty() {
+                let k = rng.below(v.len() as u64) as usize;
+                v.rotate_left(k);
+            }
             v
         };
         let use_new = rng.chance(1, 2);
@@ -709,7 +713,8 @@ pub fn probe_c10(run: &Run, rng: &mut Rng, acc: &mut Acc) -> Vec<String> {
         };
         let n = if l == 0 { rng.below128(1_000_000) } else { (l / 1000).max(1) + rng.below128(l.saturating_mul(999).min(1_000_000_000_000_000_000_000_000_000)) };
         let n = if l > 0 { n.clamp((l / 1000).max(1), l.saturating_mul(1000)) } else { n };
-        let rw = rng.below128(1_000_000_000_000_000_000_000_000_000);
+        // (zero is a value like any other: the reward total is then SET to zero)
+        let rw = if rng.chance(1, 3) { 0 } else { rng.below128(1_000_000_000_000_000_000_000_000_000) };
         let msg = sc_resume(n, l, rw);
         for who in mons.iter().chain([sc.users[1].clone(), q.clone()].iter()) {
             let mut w = a.clone();
